@@ -657,6 +657,14 @@ def simplify_boolean_expressions_symmath(source: str) -> str:
             yield node, simplified
 
 
+def _integer_literal_value(node: ast.AST) -> int | None:
+    if core.match_template(node, ast.Constant(value=int)) and not isinstance(node.value, bool):
+        return node.value
+    if core.match_template(node, ast.UnaryOp(op=ast.USub, operand=ast.Constant(value=int))):
+        return -node.operand.value
+    return None
+
+
 @processing.fix
 def simplify_constrained_range(source: str) -> str:
     root = core.parse(source)
@@ -687,20 +695,12 @@ def simplify_constrained_range(source: str) -> str:
         else:
             continue
 
-        if core.match_template(args[0], ast.Constant(value=int)):
-            start = args[0].value
-        else:
-            start = None
+        start, stop, step = (_integer_literal_value(arg) for arg in args)
 
-        if core.match_template(args[1], ast.Constant(value=int)):
-            stop = args[1].value
-        else:
-            stop = None
-
-        if core.match_template(args[2], ast.Constant(value=int)):
-            step = args[2].value
-        else:
-            step = None
+        if start is None or stop is None or step != 1:
+            # Folding a condition into the bounds is only valid when both bounds are known
+            # integers and every integer in between is visited.
+            continue
 
         target_name = comp.target.id
 
@@ -714,40 +714,41 @@ def simplify_constrained_range(source: str) -> str:
 
             conditions.add(condition)
 
+        integer = ast.Constant(value=int)
         gt_template = (
             ast.Compare(
-                left=ast.Name(id=target_name), ops=[ast.Gt()], comparators=[ast.Constant()]
+                left=ast.Name(id=target_name), ops=[ast.Gt()], comparators=[integer]
             ),
             ast.Compare(
-                left=ast.Constant(), ops=[ast.Lt()], comparators=[ast.Name(id=target_name)]
+                left=integer, ops=[ast.Lt()], comparators=[ast.Name(id=target_name)]
         ),)
         lt_template = (
             ast.Compare(
-                left=ast.Name(id=target_name), ops=[ast.Lt()], comparators=[ast.Constant()]
+                left=ast.Name(id=target_name), ops=[ast.Lt()], comparators=[integer]
             ),
             ast.Compare(
-                left=ast.Constant(), ops=[ast.Gt()], comparators=[ast.Name(id=target_name)]
+                left=integer, ops=[ast.Gt()], comparators=[ast.Name(id=target_name)]
         ),)
         gte_template = (
             ast.Compare(
-                left=ast.Name(id=target_name), ops=[ast.GtE()], comparators=[ast.Constant()]
+                left=ast.Name(id=target_name), ops=[ast.GtE()], comparators=[integer]
             ),
             ast.Compare(
-                left=ast.Constant(), ops=[ast.LtE()], comparators=[ast.Name(id=target_name)]
+                left=integer, ops=[ast.LtE()], comparators=[ast.Name(id=target_name)]
         ),)
         lte_template = (
             ast.Compare(
-                left=ast.Name(id=target_name), ops=[ast.LtE()], comparators=[ast.Constant()]
+                left=ast.Name(id=target_name), ops=[ast.LtE()], comparators=[integer]
             ),
             ast.Compare(
-                left=ast.Constant(), ops=[ast.GtE()], comparators=[ast.Name(id=target_name)]
+                left=integer, ops=[ast.GtE()], comparators=[ast.Name(id=target_name)]
         ),)
         eq_template = (
             ast.Compare(
-                left=ast.Name(id=target_name), ops=[ast.Eq()], comparators=[ast.Constant()]
+                left=ast.Name(id=target_name), ops=[ast.Eq()], comparators=[integer]
             ),
             ast.Compare(
-                left=ast.Constant(), ops=[ast.Eq()], comparators=[ast.Name(id=target_name)]
+                left=integer, ops=[ast.Eq()], comparators=[ast.Name(id=target_name)]
         ),)
         templates = (gt_template, lt_template, gte_template, lte_template, eq_template)
 
@@ -777,7 +778,7 @@ def simplify_constrained_range(source: str) -> str:
                     redundant_conditions.add(condition)
 
             elif core.match_template(condition, lte_template):
-                if stop is None or comparator.value <= stop:
+                if stop is None or comparator.value < stop:
                     stop = comparator.value + 1
                     redundant_conditions.add(condition)
 
